@@ -813,9 +813,9 @@ func c05Kind(c *Ctx, r *RuleResult, fiT *types.Named) {
 		}
 		return call, decoded
 	}
-	serverProducers := map[string]bool{"fileInfoFromOS": true}
+	serverProducer := p.Func(pkgWebdav, "fileInfoFromOS")
 	for _, fn := range p.ModFns {
-		if !inLib(fn) || p.isControlFn(fn) || fnPkg(fn) == nil || fnPkg(fn).Path() != pkgWebdav || serverProducers[fn.Name()] {
+		if !inLib(fn) || p.isControlFn(fn) || fnPkg(fn) == nil || fnPkg(fn).Path() != pkgWebdav || fn == serverProducer {
 			continue
 		}
 		eachInstr(fn, func(b *ssa.BasicBlock, in ssa.Instruction) {
@@ -1046,6 +1046,7 @@ func runC04(c *Ctx, pr *PropertyRun) {
 	// the option fields arrive at the check in the right positions
 	arg := NewRule("C04", "C04.check-args", "LocalFileSystem hands options.IfMatch to the check's If-Match parameter and options.IfNoneMatch to its If-None-Match parameter, unaltered, together with the Stat result of the resource (E1 PAIR)")
 	pr.Rules = append(pr.Rules, arg)
+	checkFn := p.Func(pkgWebdav, "checkConditionalMatches")
 	for _, a := range [][2]string{{"(LocalFileSystem).Create", "CreateOptions"}, {"(LocalFileSystem).RemoveAll", "RemoveAllOptions"}} {
 		entry := p.MustFunc(arg, pkgWebdav, a[0])
 		ot := p.NamedType(pkgWebdav, a[1])
@@ -1053,7 +1054,7 @@ func runC04(c *Ctx, pr *PropertyRun) {
 			continue
 		}
 		res := RunFieldFlow(c, FFConfig{Entries: []*ssa.Function{entry}, IsSource: func(n *types.Named) bool { return n == ot }, CallSink: func(site ssa.CallInstruction) map[int]string {
-			if f := site.Common().StaticCallee(); f != nil && f.Name() == "checkConditionalMatches" && fnPkg(f) != nil && fnPkg(f).Path() == pkgWebdav {
+			if f := site.Common().StaticCallee(); f != nil && f == checkFn {
 				return map[int]string{1: "check:ifMatch", 2: "check:ifNoneMatch"}
 			}
 			return nil
